@@ -126,6 +126,7 @@ pub fn reorg_history(args: &[String], probes: bool) -> Value {
     let mut nonce = 100u64;
     let (mut n_reorg, mut n_detached, mut n_blocks, mut n_accept, mut n_reject, mut n_conc, mut n_commit_side, mut n_directed) = (0u64, 0u64, 0u64, 0u64, 0u64, 0u64, 0u64, 0u64);
     let mut err: Option<String> = None;
+    let mut n_resubmit = 0u64;
     // twins created for transactions that went to the main chain: candidates to be committed on a side branch
     let mut twins: Vec<usize> = vec![];
     if pr == 5 || pr == 6 {
@@ -158,6 +159,21 @@ pub fn reorg_history(args: &[String], probes: bool) -> Value {
                 w.probe_template("epoch-boundary", true);
                 n_blocks += 1;
                 return Ok(());
+            }
+            if (pr == 5 || pr == 6) && rng.chance(1, 5) {
+                // directed (tight limits): an entry of stage Proposed leaves and comes back - it re-enters directly at stage
+                // Proposed, which reaches the assembler through `update_transactions` (the incremental path: template kept,
+                // transactions re-packaged next to the uncles and proposals already chosen)
+                let info = w.ctl().get_all_entry_info().map_err(|e| e.to_string())?;
+                let proposed: Vec<usize> = info.proposed.keys().filter_map(|h| w.tx_by_hash.get(h).copied()).collect();
+                if let Some(t) = pick(&mut rng, &proposed) {
+                    if w.remove(t) {
+                        let _ = w.submit(t);
+                        n_resubmit += 1;
+                        w.probe_template("after-resubmit-proposed", true);
+                    }
+                    return Ok(());
+                }
             }
             if r < 40 {
                 if let Some(t) = random_tx(&mut w, &mut rng, false) {
@@ -284,7 +300,7 @@ pub fn reorg_history(args: &[String], probes: bool) -> Value {
     let mut doc = w.finish_json();
     doc["summary"] = json!({"seed": seed, "profile": pr, "mine": scn.mine, "steps": steps, "events": w.events.len(), "txs": w.txs.len(), "accepted": n_accept,
         "rejected": n_reject, "blocks": n_blocks, "reorgs": n_reorg, "detached_blocks": n_detached, "concurrent_submits": n_conc,
-        "side_branches_with_commits": n_commit_side, "directed_reorgs": n_directed, "templates": w.n_templates, "boundary_templates": w.n_boundary_templates, "error": err});
+        "side_branches_with_commits": n_commit_side, "directed_reorgs": n_directed, "resubmitted_proposed": n_resubmit, "templates": w.n_templates, "boundary_templates": w.n_boundary_templates, "error": err});
     w.dispose();
     doc
 }
